@@ -690,7 +690,7 @@ func main() {
 			}
 			return m
 		},
-		QuickBudget:    4 * 60e9,
+		QuickBudget:    8 * 60e9,
 		ThoroughBudget: 40 * 60e9,
 	})
 }
